@@ -138,6 +138,11 @@ def run(ctx):
         if carved:
             ctx.count('carved-out')
             continue
+        if 'pep440' in r[3]:
+            # not a PEP 440-valid operator / literal combination (e.g. an ordering operator with a local version): reported and
+            # dropped (C17); the property quantifies over valid combinations only
+            ctx.count('invalid-combination')
+            continue
         bad = None
         for (x, y, z), env in envs:
             want = pred([x, y])
